@@ -983,3 +983,57 @@ pub fn strip_for_sync(g: &mut G) {
         strip_for_sync(c);
     }
 }
+
+/// A *sibling* grammar: the same shape, the same allocation sizes, other symbols — every literal,
+/// token set and custom-parser symbol is replaced by another symbol below `nsym` whose encoding has
+/// the same width for the given token type. Built, used and dropped right before the grammar itself is
+/// built on the same thread (histsim's prelude), so that the two grammars' heap data and parser nodes
+/// tend to occupy the same addresses one after the other.
+pub fn sibling(g: &G, rng: &mut Rng, nsym: u8, is_char: bool) -> G {
+    fn width(s: u8, is_char: bool) -> usize {
+        if is_char {
+            crate::tok::CHARS[s as usize % crate::tok::CHARS.len()].len_utf8()
+        } else {
+            1
+        }
+    }
+    fn other(s: u8, rng: &mut Rng, nsym: u8, is_char: bool) -> u8 {
+        let w = width(s, is_char);
+        let cands: Vec<u8> = (0..nsym.max(1)).filter(|c| *c != s && width(*c, is_char) == w).collect();
+        if cands.is_empty() {
+            s
+        } else {
+            *rng.pick(&cands)
+        }
+    }
+    fn go(g: &mut G, rng: &mut Rng, nsym: u8, is_char: bool) {
+        match g {
+            G::Just(s) => *s = other(*s, rng, nsym, is_char),
+            G::JustSeq(v) | G::OneOf(v) | G::NoneOf(v) | G::Select(v) | G::SelectRef(v) => {
+                for s in v.iter_mut() {
+                    *s = other(*s, rng, nsym, is_char);
+                }
+            }
+            G::Custom(a, b) => {
+                *a = other(*a, rng, nsym, is_char);
+                *b = other(*b, rng, nsym, is_char);
+                if a == b {
+                    *b = (*a + 1) % nsym.max(2);
+                }
+            }
+            G::CustomApi(_, a) => *a = other(*a, rng, nsym, is_char),
+            G::Recover(_, Strat::Nested(o, c, o2, c2)) => {
+                // keep the four delimiters distinct from each other as the generator made them
+                let _ = (o, c, o2, c2);
+            }
+            _ => {}
+        }
+        for c in children_mut(g) {
+            go(c, rng, nsym, is_char);
+        }
+    }
+    let mut h = g.clone();
+    go(&mut h, rng, nsym, is_char);
+    fixup(&mut h, nsym);
+    h
+}
